@@ -154,6 +154,78 @@ strict reader parses for itself (and refuses) -/
 example : (sharedReads Witness.crypto Witness.codec ⟨codeKey, []⟩ [(Witness.lenient, []), (Witness.strict, [])]).1 =
     [(Witness.lenient, .ok Witness.idx0), (Witness.strict, .rej .gzip)] := by decide
 
+/-! ## transparency: under one server state sharing is only an optimisation -/
+
+/-- the verdict of `parseRepositoryIndex` depends on keys / options / URL / architecture only through the mode -/
+theorem parseIndex_mode (C : Crypto) (R : Codec) (a b : ReadCtx) (h : a.mode = b.mode) (bytes : Bytes) :
+    parseIndex C R a.keys a.opts a.url a.arch bytes = parseIndex C R b.keys b.opts b.url b.arch bytes := by
+  unfold ReadCtx.mode modeOf at h
+  unfold parseIndex parseIndexWith
+  cases ha : checkOn a.opts a.url a.arch <;> cases hb : checkOn b.opts b.url b.arch <;> simp [ha, hb] at h ⊢
+  rw [h]
+
+/-- equal keys ⇒ equal mode and equal index URL -/
+def UrlModeAware {κ : Type} (kf : ReadCtx → κ) : Prop := ∀ a b, kf a = kf b → a.mode = b.mode ∧ a.url = b.url
+
+/-- every entry is what each reader that can hit it would have computed itself from the server's bytes -/
+def Transparent {κ : Type} (C : Crypto) (R : Codec) (body : Text → Bytes) (s : Share κ) : Prop :=
+  ∀ e ∈ s.ents, ∀ c, s.kf c = e.1 → e.2 = parseIndex C R c.keys c.opts c.url c.arch (body c.url)
+
+theorem sharedRead_transparent {κ : Type} [DecidableEq κ] (C : Crypto) (R : Codec) (body : Text → Bytes) (s : Share κ) (c : ReadCtx)
+    (hk : UrlModeAware s.kf) (hs : Transparent C R body s) :
+    (sharedRead C R s c (body c.url)).1 = parseIndex C R c.keys c.opts c.url c.arch (body c.url) ∧
+    Transparent C R body (sharedRead C R s c (body c.url)).2 ∧ (sharedRead C R s c (body c.url)).2.kf = s.kf := by
+  unfold sharedRead
+  split
+  · next r hf => exact ⟨hs _ (share_find_mem hf) c rfl, hs, rfl⟩
+  · refine ⟨rfl, ?_, rfl⟩
+    intro e he c2 hc2
+    simp only [Share.put, List.mem_cons] at he
+    rcases he with rfl | he
+    · obtain ⟨hm, hu⟩ := hk c2 c hc2
+      simp only
+      rw [hu]
+      exact (parseIndex_mode C R c2 c hm (body c.url)).symm ▸ (by rw [← hu])
+    · exact hs e he c2 hc2
+
+/-- **under one server state a mode-aware table is transparent**: whatever the arrival order, every reader gets exactly
+what it would have computed alone -/
+theorem share_transparent {κ : Type} [DecidableEq κ] (C : Crypto) (R : Codec) (body : Text → Bytes) (cs : List ReadCtx) (s : Share κ)
+    (hk : UrlModeAware s.kf) (hs : Transparent C R body s) :
+    (sharedReads C R s (cs.map fun c => (c, body c.url))).1 =
+      cs.map fun c => (c, parseIndex C R c.keys c.opts c.url c.arch (body c.url)) := by
+  induction cs generalizing s with
+  | nil => rfl
+  | cons c rest ih =>
+    obtain ⟨h1, h2, h3⟩ := sharedRead_transparent C R body s c hk hs
+    simp only [List.map_cons, sharedReads]
+    rw [h1, ih (sharedRead C R s c (body c.url)).2 (by rw [h3]; exact hk) h2]
+
+
+theorem codeKey_urlModeAware : UrlModeAware codeKey := by
+  intro a b h
+  simp only [codeKey, memoKey, implKeying, MemoKey.mk.injEq, Option.some.injEq] at h
+  exact ⟨h.2.2, h.1⟩
+
+theorem transparent_empty {κ : Type} (C : Crypto) (R : Codec) (body : Text → Bytes) (kf : ReadCtx → κ) :
+    Transparent C R body ⟨kf, []⟩ := by
+  intro e he; cases he
+
+/-- the code's table under one server state: the result list of any arrival order is the readers' own verdicts, so
+two arrival orders give every reader the same result (this is what lets the sequential model `runAll` stand for a
+concurrent run of the harness) -/
+theorem code_share_transparent (C : Crypto) (R : Codec) (body : Text → Bytes) (cs : List ReadCtx) :
+    (sharedReads C R ⟨codeKey, []⟩ (cs.map fun c => (c, body c.url))).1 =
+      cs.map fun c => (c, parseIndex C R c.keys c.opts c.url c.arch (body c.url)) :=
+  share_transparent C R body cs ⟨codeKey, []⟩ codeKey_urlModeAware (transparent_empty C R body codeKey)
+
+/-- … whereas a table keyed by the URL alone is not transparent: the strict reader's answer depends on who came first -/
+theorem urlKey_order_dependent :
+    (sharedReads Witness.crypto Witness.codec ⟨urlKey, []⟩ [(Witness.lenient, []), (Witness.strict, [])]).1 =
+      [(Witness.lenient, .ok Witness.idx0), (Witness.strict, .ok Witness.idx0)] ∧
+    (sharedReads Witness.crypto Witness.codec ⟨urlKey, []⟩ [(Witness.strict, []), (Witness.lenient, [])]).1 =
+      [(Witness.strict, .rej .gzip), (Witness.lenient, .rej .gzip)] := by decide
+
 /-! ## the tables of the code as it is now -/
 
 /-- the fields of `indexCache`: two tables keyed by `key` (`onces`, `indexes`), two keyed by `um` (`urlToEtag`,
